@@ -211,6 +211,19 @@ def run(ctx):
       if same:
         ctx.violation(f'agg:{name}:randomness-reused-across-slots', f'{name}: (round, client position) slots {same[:4]} quantise the same vector to bit-identical values '
                       f'(state threaded through the rounds)', replay={'aggregator': name, 'slots': [list(map(list, p)) for p in same[:6]]})
+    # many clients in one round (more than any internal chunk of keys): 80 identical small trees, one-hot weights - all 80 differ
+    if name != 'drive':
+      small = {'w': jnp.array(nprng.uniform(-1, 1, size=(96,)), jnp.float32)}
+      st = agg.init()
+      seen80 = {}
+      for pos in range(80):
+        o, _ = agg.apply([(b'k%d' % i, small, 1.0 if i == pos else 0.0) for i in range(80)], st)
+        seen80.setdefault(np.asarray(o['w']).tobytes(), []).append(pos)
+      nagg += 1
+      dup = [v for v in seen80.values() if len(v) > 1]
+      if dup:
+        ctx.violation(f'agg:{name}:randomness-reused-across-slots', f'{name}: in a round of 80 clients the positions {dup[:4]} quantise the same vector to bit-identical values',
+                      replay={'aggregator': name, 'positions': dup[:6]})
     # arithmetic coding: per round the increment is the documented per-client cost; with one client it can be recomputed from the returned tree
     if name == 'uniform_arithmetic':
       st = agg.init()
